@@ -1,8 +1,20 @@
 import Mltwist.Model.RiscvTables
 import Mltwist.Spec.RiscvLift
 import Mltwist.Lemmas.RiscvDecode
+import Mltwist.Lemmas.RiscvLiftValues
+import Mltwist.Lemmas.RiscvLiftValuesM
+import Mltwist.Lemmas.RiscvLiftValues64
+import Mltwist.Lemmas.RiscvLiftX0
 /-
-Helper lemmas for C01.  (Proofs to be supplied.)
+Helper lemmas for C01: every table entry lifts correctly.
+
+The library is in `RiscvLiftBasic` (naming, arithmetic bridges, `Rel` after a write), `RiscvLiftExec`
+(`exec_<mnemonic>`: the reference in closed form), `RiscvLiftFields` (word fields, `Ctx`, evaluation
+of atoms), `RiscvLiftShapes` (`StepOK.of_*`: one lemma per effect-list shape), `RiscvLiftValues`
+(`Ctx.eval_*`: the value of each lifted expression; `RiscvLiftValuesM`: M extension;
+`RiscvLiftValues64`: `lui` and the `…w` forms of RV64), `RiscvLiftX0` (`x0` is never written).  Overview: `/verif/incoming/c01/LIBRARY.md`.
+
+An entry proof is one line: `lift32 h hnw => .of_<shape> h (exec_<mnemonic> ..) (h.eval_<op> _)`.
 -/
 namespace Mltwist.Lemmas.RiscvLift
 open Mltwist Mltwist.Riscv Mltwist.Spec.Rv Mltwist.Spec.Lift
@@ -21,41 +33,380 @@ def LiftOK (xlen : Nat) (e : Entry) : Prop :=
       nextIp ρ (e.validEffects ⟨s.pc, w⟩) ((s.pc + 4) % 2 ^ xlen) = s'.pc ∧
       St.WF xlen s'
 
+/-- `LiftOK` from `StepOK` (RV32): the hypotheses are bundled into `h : Ctx 32 4 ρ s w`; the
+remaining ones are the pattern match and `noWrap`. -/
+theorem LiftOK.of_step32 {e : Entry}
+    (H : ∀ (w : Nat) (s : St) (ρ : Env), Ctx 32 4 ρ s w → e.matchesWord w = true →
+      noWrap 32 e.name w s = true → StepOK 32 e.name w s ρ (e.effects ⟨s.pc, w⟩)) : LiftOK 32 e :=
+  fun w s ρ hw hm hwf hrel hnw => H w s ρ (Ctx.mk32 hw hwf hrel) hm hnw
+
+/-- `LiftOK` from `StepOK` (RV64) -/
+theorem LiftOK.of_step64 {e : Entry}
+    (H : ∀ (w : Nat) (s : St) (ρ : Env), Ctx 64 8 ρ s w → e.matchesWord w = true →
+      noWrap 64 e.name w s = true → StepOK 64 e.name w s ρ (e.effects ⟨s.pc, w⟩)) : LiftOK 64 e :=
+  fun w s ρ hw hm hwf hrel hnw => H w s ρ (Ctx.mk64 hw hwf hrel) hm hnw
+
+/-- `lift32 h hnw => t`: prove `LiftOK 32 e` by the `StepOK` term `t`, which may use
+`h : Ctx 32 4 ρ s w` and `hnw : noWrap 32 e.name w s = true` (word `w`, state `s` are implicit:
+write `exec_addi ..`, `h.eval_addI _`). -/
+macro "lift32 " h:ident hnw:ident " => " t:term : tactic =>
+  `(tactic| exact LiftOK.of_step32 (fun _ _ _ $h _ $hnw => $t))
+/-- the same for `LiftOK 64 e`, with `h : Ctx 64 8 ρ s w` -/
+macro "lift64 " h:ident hnw:ident " => " t:term : tactic =>
+  `(tactic| exact LiftOK.of_step64 (fun _ _ _ $h _ $hnw => $t))
+
+/-- split `∀ e ∈ [e₁, …, eₙ], P e` into `P e₁ ∧ … ∧ P eₙ` (after `unfold Gen.<table>`) -/
+macro "split_table" : tactic =>
+  `(tactic| simp only [List.forall_mem_cons, List.not_mem_nil, false_imp_iff, implies_true, and_true])
+
 theorem integer32_ok : ∀ e ∈ Gen.integer32, LiftOK 32 e := by
-  sorry
+  unfold Gen.integer32
+  split_table
+  refine ⟨?lui, ?auipc, ?jal, ?jalr, ?beq, ?bne, ?blt, ?bge, ?bltu, ?bgeu, ?lb, ?lh, ?lw, ?lbu, ?lhu,
+    ?sb, ?sh, ?sw, ?addi, ?slti, ?sltiu, ?xori, ?ori, ?andi, ?slli, ?srli, ?srai, ?add, ?sub, ?slt,
+    ?sltu, ?or, ?and, ?xor, ?sll, ?srl, ?sra, ?fence, ?fence_i, ?ecall, ?ebreak, ?csrrw, ?csrrs,
+    ?csrrc, ?csrrwi, ?csrrsi, ?csrrci⟩
+  case lui => lift32 h _hnw => .of_wr h (exec_lui ..) h.eval_lui
+  case auipc => lift32 h _hnw => .of_wr h (exec_auipc ..) h.eval_auipc
+  case jal =>
+    lift32 h _hnw => .of_jump h (exec_jal ..) h.eval_addrImmConst_J (wrap_lt _ _) h.eval_following
+  case jalr =>
+    lift32 h _hnw => .of_jump h (exec_jalr ..) (h.eval_jumpTarget _) (Ctx.jumpTarget_lt _ _ _)
+      h.eval_following
+  case beq => lift32 h _hnw => .of_br h (exec_beq ..) (h.cond_eq _) (hc_beq _ _)
+  case bne => lift32 h _hnw => .of_br h (exec_bne ..) (h.cond_eq _) (hc_bne _ _)
+  case blt => lift32 h _hnw => .of_br h (exec_blt ..) (h.cond_lts _) rfl
+  case bge => lift32 h _hnw => .of_br h (exec_bge ..) (h.cond_lts _) rfl
+  case bltu => lift32 h _hnw => .of_br h (exec_bltu ..) (h.cond_ltu _) rfl
+  case bgeu => lift32 h _hnw => .of_br h (exec_bgeu ..) (h.cond_ltu _) rfl
+  case lb =>
+    lift32 h hnw => .of_wr h (exec_lb ..)
+      (h.eval_load_sext _ 1 7 (le_of_noWrap_lb _ _ _ hnw) (by decide))
+  case lh =>
+    lift32 h hnw => .of_wr h (exec_lh ..)
+      (h.eval_load_sext _ 2 15 (le_of_noWrap_lh _ _ _ hnw) (by decide))
+  case lw =>
+    lift32 h hnw => .of_wr h (exec_lw ..) (h.eval_load _ 4 (le_of_noWrap_lw _ _ _ hnw))
+      (Ctx.mod_sext_self _ 32)
+  case lbu => lift32 h hnw => .of_wr h (exec_lbu ..) (h.eval_load _ 1 (le_of_noWrap_lbu _ _ _ hnw))
+  case lhu => lift32 h hnw => .of_wr h (exec_lhu ..) (h.eval_load _ 2 (le_of_noWrap_lhu _ _ _ hnw))
+  case sb =>
+    lift32 h hnw => .of_store h (exec_sb ..) (h.eval_addS _) (Ctx.stAddr_lt _ _ _)
+      (le_of_noWrap_sb _ _ _ hnw) (h.store_val _ 1)
+  case sh =>
+    lift32 h hnw => .of_store h (exec_sh ..) (h.eval_addS _) (Ctx.stAddr_lt _ _ _)
+      (le_of_noWrap_sh _ _ _ hnw) (h.store_val _ 2)
+  case sw =>
+    lift32 h hnw => .of_store h (exec_sw ..) (h.eval_addS _) (Ctx.stAddr_lt _ _ _)
+      (le_of_noWrap_sw _ _ _ hnw) (h.store_val _ 4)
+  case addi => lift32 h _hnw => .of_wr h (exec_addi ..) (h.eval_addI _)
+  case slti => lift32 h _hnw => .of_wr h (exec_slti ..) (h.eval_slti _)
+  case sltiu => lift32 h _hnw => .of_wr h (exec_sltiu ..) (h.eval_sltiu _)
+  case xori => lift32 h _hnw => .of_wr h (exec_xori ..) (h.eval_xori _)
+  case ori => lift32 h _hnw => .of_wr h (exec_ori ..) (h.eval_ori _)
+  case andi => lift32 h _hnw => .of_wr h (exec_andi ..) (h.eval_andi _)
+  case slli => lift32 h _hnw => .of_wr h (exec_slli32 ..) (h.eval_slli _ (k := 5) rfl)
+  case srli => lift32 h _hnw => .of_wr h (exec_srli32 ..) (h.eval_srli _ (k := 5) rfl)
+  case srai => lift32 h _hnw => .of_wr h (exec_srai32 ..) (h.eval_srai _ (k := 5) rfl)
+  case add => lift32 h _hnw => .of_wr h (exec_add ..) (h.eval_add _)
+  case sub => lift32 h _hnw => .of_wr h (exec_sub ..) (h.eval_sub _)
+  case slt => lift32 h _hnw => .of_wr h (exec_slt ..) (h.eval_slt _)
+  case sltu => lift32 h _hnw => .of_wr h (exec_sltu ..) (h.eval_sltu _)
+  case or => lift32 h _hnw => .of_wr h (exec_or ..) (h.eval_or _)
+  case and => lift32 h _hnw => .of_wr h (exec_and ..) (h.eval_and _)
+  case xor => lift32 h _hnw => .of_wr h (exec_xor ..) (h.eval_xor _)
+  case sll => lift32 h _hnw => .of_wr h (exec_sll ..) (h.eval_sll _ (k := 5) rfl)
+  case srl => lift32 h _hnw => .of_wr h (exec_srl ..) (h.eval_srl _ (k := 5) rfl)
+  case sra => lift32 h _hnw => .of_wr h (exec_sra ..) (h.eval_sra _ (k := 5) rfl)
+  case fence => lift32 h _hnw => .of_nop h (exec_fence ..)
+  case fence_i => lift32 h _hnw => .of_nop h (exec_fence_i ..)
+  case ecall => lift32 h _hnw => .of_nop h (exec_ecall ..)
+  case ebreak => lift32 h _hnw => .of_nop h (exec_ebreak ..)
+  case csrrw => lift32 h _hnw => .of_csr h (exec_csrrw ..) (h.eval_rs1 _)
+  case csrrs => lift32 h _hnw => .of_csr h (exec_csrrs ..) (h.eval_csrrs _)
+  case csrrc => lift32 h _hnw => .of_csr h (exec_csrrc ..) (h.eval_csrrc _)
+  case csrrwi => lift32 h _hnw => .of_csr h (exec_csrrwi ..) (h.eval_csrImm _)
+  case csrrsi => lift32 h _hnw => .of_csr h (exec_csrrsi ..) (h.eval_csrrsi _)
+  case csrrci => lift32 h _hnw => .of_csr h (exec_csrrci ..) (h.eval_csrrci _)
 
 theorem mul32_ok : ∀ e ∈ Gen.mul32, LiftOK 32 e := by
-  sorry
+  unfold Gen.mul32
+  split_table
+  refine ⟨?mul, ?mulh, ?mulhu, ?mulhsu, ?div, ?divu, ?rem, ?remu⟩
+  case mul => lift32 h _hnw => .of_wr h (exec_mul ..) (h.eval_mul _)
+  case mulh => lift32 h _hnw => .of_wr h (exec_mulh ..) (h.eval_mulh _)
+  case mulhu => lift32 h _hnw => .of_wr h (exec_mulhu ..) (h.eval_mulhu _)
+  case mulhsu => lift32 h _hnw => .of_wr h (exec_mulhsu ..) (h.eval_mulhsu _)
+  case div => lift32 h _hnw => .of_wr h (exec_div ..) (h.eval_div _)
+  case divu => lift32 h _hnw => .of_wr h (exec_divu ..) (h.eval_divu _)
+  case rem => lift32 h _hnw => .of_wr h (exec_rem ..) (h.eval_rem _)
+  case remu => lift32 h _hnw => .of_wr h (exec_remu ..) (h.eval_remu _)
 
 theorem atomic32_ok : ∀ e ∈ Gen.atomic32, LiftOK 32 e := by
-  sorry
+  unfold Gen.atomic32
+  split_table
+  refine ⟨?lr, ?sc, ?amoswap, ?amoadd, ?amoxor, ?amoand, ?amoor, ?amomin, ?amomax, ?amominu,
+    ?amomaxu⟩
+  case lr =>
+    lift32 h hnw => .of_wr h (exec_lr_w ..) (h.eval_amoLoad _ 4 (le_of_noWrap_lr_w _ _ _ hnw))
+      (Ctx.mod_sext_self _ 32)
+  case sc =>
+    lift32 h hnw => .of_sc h (exec_sc_w ..) (Ctx.trunc_eval_zero _ _) (h.eval_rs1 _) (h.get_lt _)
+      (le_of_noWrap_sc_w _ _ _ hnw) (h.store_val _ 4)
+  case amoswap =>
+    lift32 h hnw => .of_amo h (exec_amoswap_w ..) (h.amo_rd _ (le_of_noWrap_amoswap_w _ _ _ hnw))
+      (h.eval_rs1 _) (h.get_lt _) (le_of_noWrap_amoswap_w _ _ _ hnw) (h.amo_swap _ 4)
+  case amoadd =>
+    lift32 h hnw => .of_amo h (exec_amoadd_w ..) (h.amo_rd _ (le_of_noWrap_amoadd_w _ _ _ hnw))
+      (h.eval_rs1 _) (h.get_lt _) (le_of_noWrap_amoadd_w _ _ _ hnw)
+      (h.amo_add _ 4 (le_of_noWrap_amoadd_w _ _ _ hnw))
+  case amoxor =>
+    lift32 h hnw => .of_amo h (exec_amoxor_w ..) (h.amo_rd _ (le_of_noWrap_amoxor_w _ _ _ hnw))
+      (h.eval_rs1 _) (h.get_lt _) (le_of_noWrap_amoxor_w _ _ _ hnw)
+      (h.amo_xor _ 4 (le_of_noWrap_amoxor_w _ _ _ hnw))
+  case amoand =>
+    lift32 h hnw => .of_amo h (exec_amoand_w ..) (h.amo_rd _ (le_of_noWrap_amoand_w _ _ _ hnw))
+      (h.eval_rs1 _) (h.get_lt _) (le_of_noWrap_amoand_w _ _ _ hnw)
+      (h.amo_and _ 4 (le_of_noWrap_amoand_w _ _ _ hnw))
+  case amoor =>
+    lift32 h hnw => .of_amo h (exec_amoor_w ..) (h.amo_rd _ (le_of_noWrap_amoor_w _ _ _ hnw))
+      (h.eval_rs1 _) (h.get_lt _) (le_of_noWrap_amoor_w _ _ _ hnw)
+      (h.amo_or _ 4 (le_of_noWrap_amoor_w _ _ _ hnw))
+  case amomin =>
+    lift32 h hnw => .of_amo h (exec_amomin_w ..) (h.amo_rd _ (le_of_noWrap_amomin_w _ _ _ hnw))
+      (h.eval_rs1 _) (h.get_lt _) (le_of_noWrap_amomin_w _ _ _ hnw)
+      (h.amo_smin _ 4 (le_of_noWrap_amomin_w _ _ _ hnw) (by decide) (by decide))
+  case amomax =>
+    lift32 h hnw => .of_amo h (exec_amomax_w ..) (h.amo_rd _ (le_of_noWrap_amomax_w _ _ _ hnw))
+      (h.eval_rs1 _) (h.get_lt _) (le_of_noWrap_amomax_w _ _ _ hnw)
+      (h.amo_smax _ 4 (le_of_noWrap_amomax_w _ _ _ hnw) (by decide) (by decide))
+  case amominu =>
+    lift32 h hnw => .of_amo h (exec_amominu_w ..) (h.amo_rd _ (le_of_noWrap_amominu_w _ _ _ hnw))
+      (h.eval_rs1 _) (h.get_lt _) (le_of_noWrap_amominu_w _ _ _ hnw)
+      (h.amo_minu _ 4 (le_of_noWrap_amominu_w _ _ _ hnw))
+  case amomaxu =>
+    lift32 h hnw => .of_amo h (exec_amomaxu_w ..) (h.amo_rd _ (le_of_noWrap_amomaxu_w _ _ _ hnw))
+      (h.eval_rs1 _) (h.get_lt _) (le_of_noWrap_amomaxu_w _ _ _ hnw)
+      (h.amo_maxu _ 4 (le_of_noWrap_amomaxu_w _ _ _ hnw))
 
 theorem integer64_ok : ∀ e ∈ Gen.integer64, LiftOK 64 e := by
-  sorry
+  unfold Gen.integer64
+  split_table
+  refine ⟨?lui, ?auipc, ?jal, ?jalr, ?beq, ?bne, ?blt, ?bge, ?bltu, ?bgeu, ?lb, ?lh, ?lw, ?ld, ?lbu,
+    ?lhu, ?lwu, ?sb, ?sh, ?sw, ?sd, ?addi, ?slti, ?sltiu, ?xori, ?ori, ?andi, ?slli, ?srli, ?srai,
+    ?add, ?sub, ?slt, ?sltu, ?or, ?and, ?xor, ?sll, ?srl, ?sra, ?fence, ?fence_i, ?ecall, ?ebreak,
+    ?csrrw, ?csrrs, ?csrrc, ?csrrwi, ?csrrsi, ?csrrci, ?addiw, ?slliw, ?srliw, ?sraiw, ?addw, ?subw,
+    ?sllw, ?srlw, ?sraw⟩
+  case lui => lift64 h _hnw => .of_wr h (exec_lui ..) h.eval_lui64
+  case auipc => lift64 h _hnw => .of_wr h (exec_auipc ..) h.eval_auipc
+  case jal =>
+    lift64 h _hnw => .of_jump h (exec_jal ..) h.eval_addrImmConst_J (wrap_lt _ _) h.eval_following
+  case jalr =>
+    lift64 h _hnw => .of_jump h (exec_jalr ..) (h.eval_jumpTarget _) (Ctx.jumpTarget_lt _ _ _)
+      h.eval_following
+  case beq => lift64 h _hnw => .of_br h (exec_beq ..) (h.cond_eq _) (hc_beq _ _)
+  case bne => lift64 h _hnw => .of_br h (exec_bne ..) (h.cond_eq _) (hc_bne _ _)
+  case blt => lift64 h _hnw => .of_br h (exec_blt ..) (h.cond_lts _) rfl
+  case bge => lift64 h _hnw => .of_br h (exec_bge ..) (h.cond_lts _) rfl
+  case bltu => lift64 h _hnw => .of_br h (exec_bltu ..) (h.cond_ltu _) rfl
+  case bgeu => lift64 h _hnw => .of_br h (exec_bgeu ..) (h.cond_ltu _) rfl
+  case lb =>
+    lift64 h hnw => .of_wr h (exec_lb ..)
+      (h.eval_load_sext _ 1 7 (le_of_noWrap_lb _ _ _ hnw) (by decide))
+  case lh =>
+    lift64 h hnw => .of_wr h (exec_lh ..)
+      (h.eval_load_sext _ 2 15 (le_of_noWrap_lh _ _ _ hnw) (by decide))
+  case lw =>
+    lift64 h hnw => .of_wr h (exec_lw ..)
+      (h.eval_load_sext _ 4 31 (le_of_noWrap_lw _ _ _ hnw) (by decide))
+  case ld =>
+    lift64 h hnw => .of_wr h (exec_ld ..) (h.eval_load _ 8 (le_of_noWrap_ld _ _ _ hnw))
+      (Ctx.mod_sext_self _ 64)
+  case lbu => lift64 h hnw => .of_wr h (exec_lbu ..) (h.eval_load _ 1 (le_of_noWrap_lbu _ _ _ hnw))
+  case lhu => lift64 h hnw => .of_wr h (exec_lhu ..) (h.eval_load _ 2 (le_of_noWrap_lhu _ _ _ hnw))
+  case lwu => lift64 h hnw => .of_wr h (exec_lwu ..) (h.eval_load _ 4 (le_of_noWrap_lwu _ _ _ hnw))
+  case sb =>
+    lift64 h hnw => .of_store h (exec_sb ..) (h.eval_addS _) (Ctx.stAddr_lt _ _ _)
+      (le_of_noWrap_sb _ _ _ hnw) (h.store_val _ 1)
+  case sh =>
+    lift64 h hnw => .of_store h (exec_sh ..) (h.eval_addS _) (Ctx.stAddr_lt _ _ _)
+      (le_of_noWrap_sh _ _ _ hnw) (h.store_val _ 2)
+  case sw =>
+    lift64 h hnw => .of_store h (exec_sw ..) (h.eval_addS _) (Ctx.stAddr_lt _ _ _)
+      (le_of_noWrap_sw _ _ _ hnw) (h.store_val _ 4)
+  case sd =>
+    lift64 h hnw => .of_store h (exec_sd ..) (h.eval_addS _) (Ctx.stAddr_lt _ _ _)
+      (le_of_noWrap_sd _ _ _ hnw) (h.store_val _ 8)
+  case addi => lift64 h _hnw => .of_wr h (exec_addi ..) (h.eval_addI _)
+  case slti => lift64 h _hnw => .of_wr h (exec_slti ..) (h.eval_slti _)
+  case sltiu => lift64 h _hnw => .of_wr h (exec_sltiu ..) (h.eval_sltiu _)
+  case xori => lift64 h _hnw => .of_wr h (exec_xori ..) (h.eval_xori _)
+  case ori => lift64 h _hnw => .of_wr h (exec_ori ..) (h.eval_ori _)
+  case andi => lift64 h _hnw => .of_wr h (exec_andi ..) (h.eval_andi _)
+  case slli => lift64 h _hnw => .of_wr h (exec_slli64 ..) (h.eval_slli _ (k := 6) rfl)
+  case srli => lift64 h _hnw => .of_wr h (exec_srli64 ..) (h.eval_srli _ (k := 6) rfl)
+  case srai => lift64 h _hnw => .of_wr h (exec_srai64 ..) (h.eval_srai _ (k := 6) rfl)
+  case add => lift64 h _hnw => .of_wr h (exec_add ..) (h.eval_add _)
+  case sub => lift64 h _hnw => .of_wr h (exec_sub ..) (h.eval_sub _)
+  case slt => lift64 h _hnw => .of_wr h (exec_slt ..) (h.eval_slt _)
+  case sltu => lift64 h _hnw => .of_wr h (exec_sltu ..) (h.eval_sltu _)
+  case or => lift64 h _hnw => .of_wr h (exec_or ..) (h.eval_or _)
+  case and => lift64 h _hnw => .of_wr h (exec_and ..) (h.eval_and _)
+  case xor => lift64 h _hnw => .of_wr h (exec_xor ..) (h.eval_xor _)
+  case sll => lift64 h _hnw => .of_wr h (exec_sll ..) (h.eval_sll _ (k := 6) rfl)
+  case srl => lift64 h _hnw => .of_wr h (exec_srl ..) (h.eval_srl _ (k := 6) rfl)
+  case sra => lift64 h _hnw => .of_wr h (exec_sra ..) (h.eval_sra _ (k := 6) rfl)
+  case fence => lift64 h _hnw => .of_nop h (exec_fence ..)
+  case fence_i => lift64 h _hnw => .of_nop h (exec_fence_i ..)
+  case ecall => lift64 h _hnw => .of_nop h (exec_ecall ..)
+  case ebreak => lift64 h _hnw => .of_nop h (exec_ebreak ..)
+  case csrrw => lift64 h _hnw => .of_csr h (exec_csrrw ..) (h.eval_rs1 _)
+  case csrrs => lift64 h _hnw => .of_csr h (exec_csrrs ..) (h.eval_csrrs _)
+  case csrrc => lift64 h _hnw => .of_csr h (exec_csrrc ..) (h.eval_csrrc _)
+  case csrrwi => lift64 h _hnw => .of_csr h (exec_csrrwi ..) (h.eval_csrImm _)
+  case csrrsi => lift64 h _hnw => .of_csr h (exec_csrrsi ..) (h.eval_csrrsi _)
+  case csrrci => lift64 h _hnw => .of_csr h (exec_csrrci ..) (h.eval_csrrci _)
+  case addiw => lift64 h _hnw => .of_wr h (exec_addiw ..) (h.eval_addiw _)
+  case slliw => lift64 h _hnw => .of_wr h (exec_slliw ..) (h.eval_slliw _)
+  case srliw => lift64 h _hnw => .of_wr h (exec_srliw ..) (h.eval_srliw _)
+  case sraiw => lift64 h _hnw => .of_wr h (exec_sraiw ..) (h.eval_sraiw _)
+  case addw => lift64 h _hnw => .of_wr h (exec_addw ..) (h.eval_addw _)
+  case subw => lift64 h _hnw => .of_wr h (exec_subw ..) (h.eval_subw _)
+  case sllw => lift64 h _hnw => .of_wr h (exec_sllw ..) (h.eval_sllw _)
+  case srlw => lift64 h _hnw => .of_wr h (exec_srlw ..) (h.eval_srlw _)
+  case sraw => lift64 h _hnw => .of_wr h (exec_sraw ..) (h.eval_sraw _)
 
 theorem mul64_ok : ∀ e ∈ Gen.mul64, LiftOK 64 e := by
-  sorry
+  unfold Gen.mul64
+  split_table
+  refine ⟨?mul, ?mulh, ?mulhu, ?mulhsu, ?div, ?divu, ?rem, ?remu, ?mulw, ?divw, ?divuw, ?remw,
+    ?remuw⟩
+  case mul => lift64 h _hnw => .of_wr h (exec_mul ..) (h.eval_mul _)
+  case mulh => lift64 h _hnw => .of_wr h (exec_mulh ..) (h.eval_mulh _)
+  case mulhu => lift64 h _hnw => .of_wr h (exec_mulhu ..) (h.eval_mulhu _)
+  case mulhsu => lift64 h _hnw => .of_wr h (exec_mulhsu ..) (h.eval_mulhsu _)
+  case div => lift64 h _hnw => .of_wr h (exec_div ..) (h.eval_div _)
+  case divu => lift64 h _hnw => .of_wr h (exec_divu ..) (h.eval_divu _)
+  case rem => lift64 h _hnw => .of_wr h (exec_rem ..) (h.eval_rem _)
+  case remu => lift64 h _hnw => .of_wr h (exec_remu ..) (h.eval_remu _)
+  case mulw => lift64 h _hnw => .of_wr h (exec_mulw ..) (h.eval_mulw _)
+  case divw => lift64 h _hnw => .of_wr h (exec_divw ..) (h.eval_divw _)
+  case divuw => lift64 h _hnw => .of_wr h (exec_divuw ..) (h.eval_divuw _)
+  case remw => lift64 h _hnw => .of_wr h (exec_remw ..) (h.eval_remw _)
+  case remuw => lift64 h _hnw => .of_wr h (exec_remuw ..) (h.eval_remuw _)
 
 theorem atomic64_ok : ∀ e ∈ Gen.atomic64, LiftOK 64 e := by
-  sorry
+  unfold Gen.atomic64
+  split_table
+  refine ⟨?lr_d, ?sc_d, ?amoswap_d, ?amoadd_d, ?amoxor_d, ?amoand_d, ?amoor_d, ?amomin_d, ?amomax_d,
+    ?amominu_d, ?amomaxu_d, ?lr_w, ?sc_w, ?amoswap_w, ?amoadd_w, ?amoxor_w, ?amoand_w, ?amoor_w,
+    ?amomin_w, ?amomax_w, ?amominu_w, ?amomaxu_w⟩
+  case lr_d =>
+    lift64 h hnw => .of_wr h (exec_lr_d ..) (h.eval_amoLoad _ 8 (le_of_noWrap_lr_d _ _ _ hnw))
+  case sc_d =>
+    lift64 h hnw => .of_sc h (exec_sc_d ..) (Ctx.trunc_eval_zero _ _) (h.eval_rs1 _) (h.get_lt _)
+      (le_of_noWrap_sc_d _ _ _ hnw) (h.store_val _ 8)
+  case amoswap_d =>
+    lift64 h hnw => .of_amo h (exec_amoswap_d ..) (h.amo_rd _ (le_of_noWrap_amoswap_d _ _ _ hnw))
+      (h.eval_rs1 _) (h.get_lt _) (le_of_noWrap_amoswap_d _ _ _ hnw) (h.amo_swap _ 8)
+  case amoadd_d =>
+    lift64 h hnw => .of_amo h (exec_amoadd_d ..) (h.amo_rd _ (le_of_noWrap_amoadd_d _ _ _ hnw))
+      (h.eval_rs1 _) (h.get_lt _) (le_of_noWrap_amoadd_d _ _ _ hnw)
+      (h.amo_add _ 8 (le_of_noWrap_amoadd_d _ _ _ hnw))
+  case amoxor_d =>
+    lift64 h hnw => .of_amo h (exec_amoxor_d ..) (h.amo_rd _ (le_of_noWrap_amoxor_d _ _ _ hnw))
+      (h.eval_rs1 _) (h.get_lt _) (le_of_noWrap_amoxor_d _ _ _ hnw)
+      (h.amo_xor _ 8 (le_of_noWrap_amoxor_d _ _ _ hnw))
+  case amoand_d =>
+    lift64 h hnw => .of_amo h (exec_amoand_d ..) (h.amo_rd _ (le_of_noWrap_amoand_d _ _ _ hnw))
+      (h.eval_rs1 _) (h.get_lt _) (le_of_noWrap_amoand_d _ _ _ hnw)
+      (h.amo_and _ 8 (le_of_noWrap_amoand_d _ _ _ hnw))
+  case amoor_d =>
+    lift64 h hnw => .of_amo h (exec_amoor_d ..) (h.amo_rd _ (le_of_noWrap_amoor_d _ _ _ hnw))
+      (h.eval_rs1 _) (h.get_lt _) (le_of_noWrap_amoor_d _ _ _ hnw)
+      (h.amo_or _ 8 (le_of_noWrap_amoor_d _ _ _ hnw))
+  case amomin_d =>
+    lift64 h hnw => .of_amo h (exec_amomin_d ..) (h.amo_rd _ (le_of_noWrap_amomin_d _ _ _ hnw))
+      (h.eval_rs1 _) (h.get_lt _) (le_of_noWrap_amomin_d _ _ _ hnw)
+      (h.amo_smin _ 8 (le_of_noWrap_amomin_d _ _ _ hnw) (by decide) (by decide))
+  case amomax_d =>
+    lift64 h hnw => .of_amo h (exec_amomax_d ..) (h.amo_rd _ (le_of_noWrap_amomax_d _ _ _ hnw))
+      (h.eval_rs1 _) (h.get_lt _) (le_of_noWrap_amomax_d _ _ _ hnw)
+      (h.amo_smax _ 8 (le_of_noWrap_amomax_d _ _ _ hnw) (by decide) (by decide))
+  case amominu_d =>
+    lift64 h hnw => .of_amo h (exec_amominu_d ..) (h.amo_rd _ (le_of_noWrap_amominu_d _ _ _ hnw))
+      (h.eval_rs1 _) (h.get_lt _) (le_of_noWrap_amominu_d _ _ _ hnw)
+      (h.amo_minu _ 8 (le_of_noWrap_amominu_d _ _ _ hnw))
+  case amomaxu_d =>
+    lift64 h hnw => .of_amo h (exec_amomaxu_d ..) (h.amo_rd _ (le_of_noWrap_amomaxu_d _ _ _ hnw))
+      (h.eval_rs1 _) (h.get_lt _) (le_of_noWrap_amomaxu_d _ _ _ hnw)
+      (h.amo_maxu _ 8 (le_of_noWrap_amomaxu_d _ _ _ hnw))
+  case lr_w =>
+    lift64 h hnw => .of_wr h (exec_lr_w ..) (h.eval_lr_w64 _ (le_of_noWrap_lr_w _ _ _ hnw))
+  case sc_w =>
+    lift64 h hnw => .of_sc h (exec_sc_w ..) (Ctx.trunc_eval_zero _ _) (h.eval_rs1 _) (h.get_lt _)
+      (le_of_noWrap_sc_w _ _ _ hnw) (h.store_val' _ 4)
+  case amoswap_w =>
+    lift64 h hnw => .of_amo h (exec_amoswap_w ..) (h.amo_rd_w _ (le_of_noWrap_amoswap_w _ _ _ hnw))
+      (h.eval_rs1 _) (h.get_lt _) (le_of_noWrap_amoswap_w _ _ _ hnw) (h.amo_swap _ 4)
+  case amoadd_w =>
+    lift64 h hnw => .of_amo h (exec_amoadd_w ..) (h.amo_rd_w _ (le_of_noWrap_amoadd_w _ _ _ hnw))
+      (h.eval_rs1 _) (h.get_lt _) (le_of_noWrap_amoadd_w _ _ _ hnw)
+      (h.amo_add _ 4 (le_of_noWrap_amoadd_w _ _ _ hnw))
+  case amoxor_w =>
+    lift64 h hnw => .of_amo h (exec_amoxor_w ..) (h.amo_rd_w _ (le_of_noWrap_amoxor_w _ _ _ hnw))
+      (h.eval_rs1 _) (h.get_lt _) (le_of_noWrap_amoxor_w _ _ _ hnw)
+      (h.amo_xor _ 4 (le_of_noWrap_amoxor_w _ _ _ hnw))
+  case amoand_w =>
+    lift64 h hnw => .of_amo h (exec_amoand_w ..) (h.amo_rd_w _ (le_of_noWrap_amoand_w _ _ _ hnw))
+      (h.eval_rs1 _) (h.get_lt _) (le_of_noWrap_amoand_w _ _ _ hnw)
+      (h.amo_and _ 4 (le_of_noWrap_amoand_w _ _ _ hnw))
+  case amoor_w =>
+    lift64 h hnw => .of_amo h (exec_amoor_w ..) (h.amo_rd_w _ (le_of_noWrap_amoor_w _ _ _ hnw))
+      (h.eval_rs1 _) (h.get_lt _) (le_of_noWrap_amoor_w _ _ _ hnw)
+      (h.amo_or _ 4 (le_of_noWrap_amoor_w _ _ _ hnw))
+  case amomin_w =>
+    lift64 h hnw => .of_amo h (exec_amomin_w ..) (h.amo_rd_w _ (le_of_noWrap_amomin_w _ _ _ hnw))
+      (h.eval_rs1 _) (h.get_lt _) (le_of_noWrap_amomin_w _ _ _ hnw)
+      (h.amo_smin _ 4 (le_of_noWrap_amomin_w _ _ _ hnw) (by decide) (by decide))
+  case amomax_w =>
+    lift64 h hnw => .of_amo h (exec_amomax_w ..) (h.amo_rd_w _ (le_of_noWrap_amomax_w _ _ _ hnw))
+      (h.eval_rs1 _) (h.get_lt _) (le_of_noWrap_amomax_w _ _ _ hnw)
+      (h.amo_smax _ 4 (le_of_noWrap_amomax_w _ _ _ hnw) (by decide) (by decide))
+  case amominu_w =>
+    lift64 h hnw => .of_amo h (exec_amominu_w ..) (h.amo_rd_w _ (le_of_noWrap_amominu_w _ _ _ hnw))
+      (h.eval_rs1 _) (h.get_lt _) (le_of_noWrap_amominu_w _ _ _ hnw)
+      (h.amo_minu _ 4 (le_of_noWrap_amominu_w _ _ _ hnw))
+  case amomaxu_w =>
+    lift64 h hnw => .of_amo h (exec_amomaxu_w ..) (h.amo_rd_w _ (le_of_noWrap_amomaxu_w _ _ _ hnw))
+      (h.eval_rs1 _) (h.get_lt _) (le_of_noWrap_amomaxu_w _ _ _ hnw)
+      (h.amo_maxu _ 4 (le_of_noWrap_amomaxu_w _ _ _ hnw))
 
+/-- by table: follows from the six table theorems above (`mem_instructionSet`) -/
 theorem lift_correct (xlen : Nat) (hx : Cfg xlen) (m a : Bool) :
     ∀ e ∈ instructionSet xlen m a, LiftOK xlen e := by
-  sorry
+  intro e he
+  rcases mem_instructionSet hx he with ⟨rfl, h | h | h⟩ | ⟨rfl, h | h | h⟩
+  · exact integer32_ok e h
+  · exact mul32_ok e h
+  · exact atomic32_ok e h
+  · exact integer64_ok e h
+  · exact mul64_ok e h
+  · exact atomic64_ok e h
 
 /-- register x0 is never written -/
 theorem x0_never_written (xlen : Nat) (hx : Cfg xlen) (m a : Bool) :
     ∀ e ∈ instructionSet xlen m a, ∀ i : Ins, ∀ v k w,
-      Effect.regStore v k w ∈ e.validEffects i → k ≠ xName 0 := by
-  sorry
+      Effect.regStore v k w ∈ e.validEffects i → k ≠ xName 0 :=
+  fun _e he i v k w hm => (entryNoX0_of_mem hx he).validEffects i v k w hm
 
 /-- one register per unsigned 12-bit CSR number -/
 theorem csrName_injective (n m : Nat) (hn : n < 4096) (hm : m < 4096) (h : csrName n = csrName m) :
-    n = m := by
-  sorry
+    n = m :=
+  csrName_inj hn hm h
 
 /-- the register a CSR instruction accesses is the one of its CSR number -/
-theorem csrKey_eq (i : Ins) (h : i.value < 2 ^ 32) : csrKey i = csrName (csrNum i.value) := by
-  sorry
+theorem csrKey_eq (i : Ins) (h : i.value < 2 ^ 32) : csrKey i = csrName (csrNum i.value) :=
+  csrKey_eq' (a := i.addr) h
 
 end Mltwist.Lemmas.RiscvLift
